@@ -911,6 +911,12 @@ pub fn finish(ctx: &Ctx, reports: Vec<SuiteReport>, summary: Summary) -> i32 {
     for (k, v) in summary.extra {
         coverage.insert(k, v);
     }
+    if let Some((umv, rps)) = crate::gen_pic::optional_modes_if_probed() {
+        coverage.insert(
+            "optional_header_modes".into(),
+            json!({"probe": "one minimal intra picture per mode on a fresh decoder", "umv_bit_in_intra_headers": if umv { "accepted by this tree: generated" } else { "rejected by this tree: not generated" }, "reference_picture_selection_mode": if rps { "accepted by this tree: generated" } else { "rejected by this tree: not generated" }}),
+        );
+    }
     let ev = json!({
         "property_id": ctx.prop,
         "tier": ctx.tier.name(),
@@ -995,20 +1001,27 @@ pub fn stop_watchdog() {
     WATCH_ON.store(false, Ordering::SeqCst);
 }
 
+/// Incremented by every `start_watchdog`: a monitor thread of an earlier suite retires itself.
+static WATCH_GEN: std::sync::atomic::AtomicU64 = std::sync::atomic::AtomicU64::new(0);
+
 /// Start a monitor thread for the tape suite `suite`: a case running longer than `soft_s` seconds is
 /// written out and re-executed alone in a fresh process with a `hard_s` limit. If that re-run does
 /// not finish either, the hang is reproducible: a VIOLATION is printed and the process exits 1.
 /// Otherwise the slowness was transient and the run goes on.
 pub fn start_watchdog(ctx: &Ctx, suite: &str, soft_s: u64, hard_s: u64) {
     WATCH_ON.store(true, Ordering::SeqCst);
+    let my_gen = WATCH_GEN.fetch_add(1, Ordering::SeqCst) + 1;
     let prop = ctx.prop.clone();
     let suite = suite.to_string();
     let tier = ctx.tier;
     let seed = ctx.seed;
     let root = ctx.root.clone();
     std::thread::spawn(move || {
-        while WATCH_ON.load(Ordering::Relaxed) {
+        while WATCH_ON.load(Ordering::Relaxed) && WATCH_GEN.load(Ordering::SeqCst) == my_gen {
             std::thread::sleep(std::time::Duration::from_millis(500));
+            if WATCH_GEN.load(Ordering::SeqCst) != my_gen {
+                break;
+            }
             let mut suspect: Option<Vec<u32>> = None;
             {
                 let mut slots = WATCH_SLOTS.lock().unwrap();
